@@ -44,6 +44,7 @@ pub fn run(prop: &str, tier: Tier, seed: i64, replay: Option<&str>) -> i32 {
                 ck.pumping_stage();
             }
             ck.corpus_stage();
+            ck.ladder_stage();
             // (the serde monitor is ten times as expensive per string: ASCII only in C16's quick tier)
             ck.scalar_position_stage(prop == "C16" && tier == Tier::Quick);
             if matches!(prop, "C04" | "C06" | "C10") {
@@ -82,12 +83,14 @@ pub fn run(prop: &str, tier: Tier, seed: i64, replay: Option<&str>) -> i32 {
             let (a, r) = sweeps::c13_sweep(tier, M03);
             ck.add_stage(a, r);
             ck.lens_stage(plans_for(prop, tier));
+            ck.ladder_stage();
             builder_stages(&mut ck, false);
         },
         "C12" => {
             hashorder_stage(&mut ck);
             checksum_stage(&mut ck);
             ck.lens_stage(plans_for(prop, tier));
+            ck.ladder_stage();
             let (a, r) = crate::engine_b::spelling_stage(prop, monitors_for(prop), tier);
             ck.add_stage(a, r);
         },
@@ -113,6 +116,7 @@ pub fn run(prop: &str, tier: Tier, seed: i64, replay: Option<&str>) -> i32 {
             let (a, r) = sweeps::c08_sweep(tier);
             ck.add_stage(a, r);
             ck.lens_stage(plans_for(prop, tier));
+            ck.ladder_stage();
         },
         #[cfg(feature = "typed")]
         "C15" => {
@@ -124,6 +128,7 @@ pub fn run(prop: &str, tier: Tier, seed: i64, replay: Option<&str>) -> i32 {
             let (a, r) = sweeps::c18_sweep(tier);
             ck.add_stage(a, r);
             ck.lens_stage(plans_for(prop, tier));
+            ck.ladder_stage();
         },
         "C11" => c11(&mut ck),
         "C14" => shapes_stage(&mut ck),
@@ -175,6 +180,28 @@ fn builder_stages(ck: &mut Check, with_product: bool) {
             let (a, r) = product::<T>(ck.prop, mon, ck.tier);
             ck.add_stage(a, r);
         }
+        // deeper histories over the reduced action set
+        let m = BModel::<T>::new_sharp(ck.prop, mon);
+        let sharp_depth = match (ck.tier, ck.prop) {
+            (Tier::Quick, "C09") => 6,
+            (Tier::Quick, _) => 4,
+            (Tier::Thorough, "C09") => 7,
+            (Tier::Thorough, _) => 5,
+        };
+        let t0 = Instant::now();
+        let mut res = bfs(&m, Some(sharp_depth), 6_000_000);
+        res.acc.nontrivial = res.states;
+        ck.states = Some(ck.states.unwrap_or(0) + res.states);
+        ck.transitions = Some(ck.transitions.unwrap_or(0) + res.transitions);
+        ck.traces = ck.transitions;
+        if res.acc.counters.contains_key("state_cap_hit") {
+            ck.exhaustive = false;
+        }
+        ck.add_stage(
+            res.acc,
+            json!({"engine": "C-bfs", "model": T::MODEL, "instance": "sharp (reduced action set, deeper)", "actions": m.acts.iter().map(|a| format!("{:?}", a)).collect::<Vec<_>>(), "actions_per_state": m.acts.len(),
+                   "initial_states": res.inits, "states_stored": res.states, "transitions": res.transitions, "depth": sharp_depth, "new_states_per_depth": res.per_depth, "wall_s": t0.elapsed().as_secs_f64()}),
+        );
     }
     one::<String>(ck, mon, depth, with_product);
     #[cfg(feature = "typed")]
@@ -330,6 +357,9 @@ fn c11(ck: &mut Check) {
     let mut a = Acc::new();
     let rep = crate::m_quals::long_histories(&mut a);
     ck.add_stage(a, rep);
+    let mut a = Acc::new();
+    let rep = crate::m_quals::size_ladder(ck.tier, None, &mut a);
+    ck.add_stage(a, rep);
 }
 
 pub fn prop_static(p: &str) -> &'static str {
@@ -418,6 +448,7 @@ pub fn replay_case(prop: &'static str, case: &Value) -> Option<Vec<Violation>> {
         },
         "quals-bfs" => return crate::xstate::replay(&crate::m_quals::QModel::new(Tier::Thorough, false), case).or_else(|| crate::xstate::replay(&crate::m_quals::QModel::new(Tier::Quick, false), case)),
         "quals-typed-bfs" => return crate::xstate::replay(&crate::m_quals::QModel::new(Tier::Quick, true), case),
+        "quals-ladder" => return crate::m_quals::replay_ladder(case),
         "quals-typed-others-bfs" => return crate::xstate::replay(&crate::m_quals::QModel::new_typed_others(), case),
         #[cfg(purl_verif)]
         "hashorder" => return crate::hashorder::replay(case),
@@ -642,6 +673,26 @@ impl Check {
         a.samples.truncate(3);
         self.stages.push(json!({"engine": "A9-corpus-one-edit", "strings": a.evals, "accepted": a.accepted, "nontrivial": a.nontrivial, "wall_s": t0.elapsed().as_secs_f64()}));
         self.bounds.push(json!({"corpus_one_edit_strings": inputs.len()}));
+        self.total.merge(a);
+    }
+
+    /// A11: the size ladder (every length / every count up to the bound)
+    pub fn ladder_stage(&mut self) {
+        let se = StringEval { prop: self.prop, mon: monitors_for(self.prop) };
+        let inputs = lens::ladder(self.tier);
+        let t0 = Instant::now();
+        let mut a = par_items(inputs.len(), threads(), |i, acc| {
+            if se.eval(&inputs[i], acc) {
+                acc.nontrivial += 1;
+                if i % 40_000 == 4321 {
+                    acc.sample(|| json!(inputs[i]));
+                }
+            }
+        });
+        a.samples.truncate(3);
+        self.stages.push(json!({"engine": "A11-size-ladder", "strings": a.evals, "accepted": a.accepted, "nontrivial": a.nontrivial, "max_len": inputs.iter().map(|s| s.len()).max(),
+            "every_component_length_up_to": 300, "every_count_up_to": if self.tier == Tier::Quick { 80 } else { 300 }, "wall_s": t0.elapsed().as_secs_f64()}));
+        self.bounds.push(json!({"size_ladder_strings": inputs.len()}));
         self.total.merge(a);
     }
 
